@@ -43,3 +43,30 @@ def _(v):
     v.assume(s.status == s.E(I.RUNNING), s.N > 0, s.dt != 0)
     v.call(I.CHECK, rp, s.tmax, s.lfdp)
     v.prove("dt_changed_implies_synchronised", z3.Implies(r.dt != s.dt, as_int(v.eng.read(v.st, Ptr(rp.obj, ("ri_whfast", "is_synchronized")))) == 1))
+
+
+def sync_only_for_exact_finish(v):
+    """reb_check_exit runs between two steps of every integration loop (also while a GUI / server client pauses the run).  It may
+    synchronise only as part of shortening the last step (exact finish): a synchronisation at any other step boundary -- e.g. when
+    a client pauses and resumes -- splits a combined drift of an unsynchronised integrator in two and changes the trajectory at
+    rounding level, i.e. the result would depend on whether a request was served."""
+    s = I.mk(v)                      # any status, including PAUSED / SCREENSHOT (the waiting loop: invariant of C08)
+    s.lfd0 = v.real("last_full_dt")
+    s.lfd, s.lfdp = v.cell("double", "last_full_dt", s.lfd0)
+    v.assume(s.tmax != I.INF, s.status >= -10, s.status <= 7)
+    r, rp = s.r, s.rp
+
+    def synchronize(eng, st, args, n):
+        st.trace = st.trace + [("synchronize",)]
+        return None
+    v.contract("reb_simulation_synchronize", synchronize)
+    v.assume(s.N > 0, s.dt != 0)
+    v.call(I.CHECK, rp, s.tmax, s.lfdp)
+    n_sync = len([t for t in v.st.trace if t[0] == "synchronize"])
+    v.ground("at_most_one_synchronisation", n_sync <= 1, "synchronize calls on this path: %d" % n_sync)
+    if n_sync:
+        v.prove("synchronises_only_to_shorten_the_last_step", z3.And(r.dt == s.tmax - s.t, s.exact == 1))
+
+
+from engine.api import Task
+P.tasks.append(Task(P, "check_exit.synchronises_only_for_exact_finish", I.CHECK, sync_only_for_exact_finish))
